@@ -2,12 +2,15 @@ package main
 
 import (
 	"bufio"
+	"context"
 	"fmt"
+	"github.com/uhppoted/uhppote-core/uhppote"
 	"net"
 	"os"
 	"strings"
 	"sync"
 	"sync/atomic"
+	"syscall"
 	"time"
 
 	"github.com/uhppoted/uhppote-core/types"
@@ -255,6 +258,8 @@ func c10(c *Ctx) {
 		cycles = c.N(3, 10)
 	}
 	op := rm.FindOp("GetStatus")
+	var prevU uhppote.IUHPPOTE
+	var prevAddr string
 	for cycle := 0; cycle < cycles; cycle++ {
 		port := freePort("127.0.0.3")
 		if port == 0 {
@@ -263,6 +268,12 @@ func c10(c *Ctx) {
 		}
 		addr := fmt.Sprintf("127.0.0.3:%d", port)
 		u := mkClient(ClientCfg{Bind: "127.0.0.1:0", Listen: addr, Timeout: time.Second})
+		if cycle%2 == 1 && prevU != nil {
+			// the same client listens again on the same address: a second session is as good as the first
+			u, addr = prevU, prevAddr
+			c.Res.Count("cycles:same-client-listening-again", 1)
+		}
+		prevU, prevAddr = u, addr
 		lst := &c10Listener{addr: addr, errFalse: cycle%2 == 1}
 		if cycle%3 == 1 {
 			lst.slowEvery = 5 + r.Pick(10)
@@ -302,6 +313,21 @@ func c10(c *Ctx) {
 			continue
 		}
 
+		// every seventh cycle somebody else tries to take the listen address with SO_REUSEADDR set: it is in use (if the bind is
+		// let through, whatever that socket swallows is missing from the callbacks below)
+		if cycle%7 == 3 {
+			lc := net.ListenConfig{Control: func(network, address string, rc syscall.RawConn) error {
+				var serr error
+				rc.Control(func(fd uintptr) { serr = syscall.SetsockoptInt(int(fd), syscall.SOL_SOCKET, syscall.SO_REUSEADDR, 1) })
+				return serr
+			}}
+			if pc, err := lc.ListenPacket(context.Background(), "udp4", addr); err == nil {
+				defer pc.Close()
+				c.Res.Count("cycles:foreign-bind-of-the-listen-address-succeeded", 1)
+			} else {
+				c.Res.Count("cycles:foreign-bind-of-the-listen-address-refused", 1)
+			}
+		}
 		nSenders := 1 + r.Pick(4)
 		perSender := c.N(60, 250) + r.Pick(100)
 		stopMid := cycle%4 == 3
@@ -310,6 +336,7 @@ func c10(c *Ctx) {
 			streams[s] = c10Make(r, z, s, perSender, uint32(0x1a000000)+uint32(cycle)<<8+uint32(s)<<4+1, tdays)
 		}
 		var sentTotal atomic.Int64
+		var stalled atomic.Bool // a sender gave up waiting for acknowledgements (the checker below reports what is missing)
 		var wg sync.WaitGroup
 		stopSending := make(chan struct{})
 		sentUpTo := make([]int, nSenders)
@@ -323,12 +350,17 @@ func c10(c *Ctx) {
 				}
 				defer conn.Close()
 				for i, d := range streams[s] {
+					waited := 0
 					for sentTotal.Load()-lst.acks.Load() >= window {
 						select {
 						case <-stopSending:
 							return
 						default:
 							time.Sleep(20 * time.Microsecond)
+						}
+						if waited++; waited > 40000 { // >= 0.8 s of sleeps (several seconds in practice) without an acknowledgement: the listener is not delivering
+							stalled.Store(true)
+							return
 						}
 					}
 					select {
@@ -376,6 +408,9 @@ func c10(c *Ctx) {
 			}
 		}
 		fullyAcked := lst.acks.Load() >= sentTotal.Load()
+		if stalled.Load() {
+			c.Res.Count("cycles:senders-gave-up-waiting-for-acknowledgements", 1)
+		}
 		tSignal := farm.Mono()
 		q <- os.Interrupt
 		var lerr error
@@ -488,7 +523,9 @@ func c10(c *Ctx) {
 					}
 				case "event":
 					mustEvent++
-					if delivered[d] == 0 && fullyAcked {
+					if delivered[d] == 0 && (fullyAcked || (stalled.Load() && !stopMid && d.sentAt != 0)) {
+						// (stalled: the senders waited for seconds without a single callback although the socket was bound and the kernel
+						// dropped nothing - the listener is not delivering what it receives)
 						if dropped {
 							c.Res.Inconcl("a valid event is missing but the kernel reported receive buffer drops")
 						} else {
